@@ -265,3 +265,4 @@ def run(ctx) -> None:
     listing_keys(ctx)
     io_caches(ctx)
     pickling(ctx)
+    shared.argname_scope(ctx, ('forml.io.asset', 'forml.project._distribution', 'forml.project._body', 'forml.provider.registry.filesystem'), floor=2)
